@@ -201,6 +201,15 @@ def quiescent_callers(prog, res):
               "the stream returns to its init stage only after ZSTDMT_waitForAllJobsCompleted (or without a worker context / with no frame in progress)",
               "ZSTD_CCtx_reset returns the context to the init stage while worker jobs of the abandoned frame may still run: they read the dictionary and "
               "prefix, which the caller may now release or replace (use-after-free)")
+    # once the last job of a frame exists (frameEnded) no more input may be loaded into that frame
+    cs = prog.fn("ZSTDMT_compressStream_generic")
+    loads = [(b, i) for b, i, c in cs.calls(("memcpy", "__builtin_memcpy")) if "p:2" in cs.anchors(c["a"][1], depth=3)]
+    from ..rules import guards as _g2
+    open_ = _g2.truthy_edges(cs, lambda c: c.get("k") == "mem" and c.get("f") == "frameEnded", truth=False)
+    res.check(bool(loads) and bool(open_) and cs.must_pass(via_edges=open_, targets=loads), "T3.no-input-after-last-job", "ZSTDMT_compressStream_generic", cs.loc,
+              "caller input is copied into the job buffer only on the !frameEnded edge",
+              "ZSTDMT_compressStream_generic can load new input after the frame's last job was created: the extra job is queued behind the one flagged last, "
+              "all input is reported consumed and the emitted stream cannot be decoded")
     fc = prog.fn("ZSTD_freeCCtxContent")
     stopw = fc.call_roots("ZSTDMT_freeCCtx")
     reld = fc.call_roots(("ZSTD_clearAllDicts", "ZSTD_cwksp_free"))
